@@ -8,7 +8,7 @@ theorem Inv.toComputing {P : Program} {s s' : St} {k : Key} {discs : List Key}
     (h4 : s'.db = s.db) (h5 : s'.dbIter = s.dbIter) (h6 : s'.status = upd s.status k .computing)
     (h7 : s'.task = upd s.task k { s.task k with discs := discs })
     (h8 : s'.pending = s.pending) (h9 : s'.target = s.target) (h10 : s'.started = s.started)
-    (h11 : s'.validSeen = s.validSeen)
+    (h11 : s'.validSeen = s.validSeen) (h12 : s'.registered = s.registered) (h13 : s'.sigAt = s.sigAt)
     (hs : s.status k = .running) (hts : (s.task k).started = true)
     (hall : (s.task k).issued.all (fun q => if q.kind == 2 then isDone s q.key else delivered (s.task k).seq q) = true)
     (hd : discs = P.disc k (recvOf (s.task k).seq))
@@ -93,11 +93,17 @@ theorem Inv.toComputing {P : Program} {s s' : St} {k : Key} {discs : List Key}
     rw [hst'] at hx
     by_cases e : x = k
     · simp [e] at hx
-    · simp [e] at hx; rw [h11] at hv; rw [h1, h3]; exact hi.validOk x hx hv
+    · simp [e] at hx; rw [h11] at hv; rw [h1, h3, h13]; exact hi.validOk x hx hv
   · intro ht x hx
     rw [h9] at ht; rw [h11]; rw [hst'] at hx
     by_cases e : x = k
     · simp [e] at hx
     · simp [e] at hx; exact hi.validIdle ht x hx
+  · rw [h12, h13]; exact hi.sigAtOk
+  · intro x hx
+    rw [h12]; rw [hst'] at hx
+    by_cases e : x = k
+    · simp [e] at hx
+    · simp [e] at hx; exact hi.scanReg x hx
 
 end LLBuild.Engine
